@@ -8,7 +8,9 @@
 (* double loop with zero pruning of MultiVector._generic_product, and the  *)
 (* sign tables of rev / invol / inv, inv() as a whole (which inputs it     *)
 (* answers), __eq__ as dict equality, and __add__ over the stored data     *)
-(* dicts of live objects (what it leaves behind in its operands).          *)
+(* dicts of live objects (what it leaves behind in its operands), and the  *)
+(* kind of number (exact / float) the metric entries of a space are,       *)
+(* depending on how the space was constructed.                             *)
 (*                                                                         *)
 (* This layer never decides a verdict on the implementation.  TLC checks   *)
 (* that it refines the meaning (C18_Clifford) over the bounded space, and  *)
@@ -177,4 +179,25 @@ ImplPureGradeD(d) ==                         \* get_pure_grade(): -1 stands for 
         ELSE IF Cardinality(gs) = 1 THEN CHOOSE r \in gs : TRUE ELSE -1
 \* inv() looks at len(self.data) and get_pure_grade(): the stored keys, zeros included
 ImplInvD(d, n, g) == ImplInv(MVOfDict(d), n, g)
+
+(* Space.__init__ and the KIND of number a product computes with.  How the   *)
+(* space was constructed (sm) decides what the metric entries are: an        *)
+(* explicitly given metric keeps the (exact) entries it was given; every     *)
+(* construction without a metric_matrix -- Space(n), Space(names),           *)
+(* get_euclidean_space(n), MultiVector(ndarray) -- builds the Euclidean      *)
+(* metric as numpy.eye(n, dtype=object), whose entries are the exact         *)
+(* integers 1 and 0.  Bug = "eye_float": numpy.eye(n), whose entries are     *)
+(* floats.  A coefficient product that takes a float factor is a float (an   *)
+(* approximation); _shared_metric_coeff reads the metric exactly for the     *)
+(* basis vectors two blades share, the weight of disjoint blades is the      *)
+(* literal 1.                                                                *)
+DefaultMetricModes == {"default", "names", "euclid", "nd"}
+ImplMetricKind(sm) ==
+    IF sm \in DefaultMetricModes /\ Bug = "eye_float" THEN "float" ELSE "exact"
+\* some term of the product of the EXACT multivectors a, b is computed with a float
+ImplProdInexact(op, a, b, g, mk) ==
+    \E p \in (DOMAIN DictOf(a)) \X (DOMAIN DictOf(b)) :
+        /\ Weight(op, p[1], p[2], g) # 0
+        /\ BitAnd(p[1], p[2]) # 0
+        /\ mk = "float"
 =============================================================================
